@@ -99,7 +99,9 @@ def r1(ctx: Ctx):
              'the runner does not propagate error skipping to every operator',
              node=ri.node)
   ch = repo.func(TR, 'ChainedRunner.iterate')
-  fwd = [c for c in walk_no_nested(ch.node) if isinstance(c, ast.Call) and unparse(c.func) == 'r.iterate']
+  fwd = [c for l in walk_no_nested(ch.node) if isinstance(l, ast.For) and unparse(l.iter) == 'self._runners'
+         for c in ast.walk(l) if isinstance(c, ast.Call) and isinstance(c.func, ast.Attribute)
+         and c.func.attr == 'iterate' and unparse(c.func.value) == unparse(l.target)]
   if fwd and all(unparse(kwarg(c, 'ignore_error')) == 'ignore_error' for c in fwd):
     ctx.ok(rule, ch, 'ChainedRunner.iterate forwards ignore_error to every stage', fwd[0])
   else:
@@ -241,7 +243,7 @@ def r2(ctx: Ctx):
         # the iterator comes from calling a parameter: follow the call sites
         ks = (ks - {'param'}) | _from_callers(repo, kinds, fi, arg.id)
       if 'generator' in ks:
-        ctx.fail(rule, fi, c,
+        ctx.fail(rule, fi, f'{fi.qualname}: iter_ignore_error(<operator output>)',
                  f'iter_ignore_error wraps `{unparse(arg)}`, which can be a'
                  f' generator object ({"; ".join(kinds.trace[-2:])}): after the'
                  ' first skipped error the generator is finished, so every'
@@ -338,8 +340,10 @@ def r3(ctx: Ctx):
              ' outputs are not zipped with the recorded inputs: elements after'
              ' a skipped one are paired with the wrong inputs', node=pw.node)
   tee_fn = repo.func(IU, '_TeeIterator.__next__')
-  t = unparse(tee_fn.node)
-  if 'self._buffer.append(value)' in t and 'value = next(self._iterator)' in t:
+  from mlmverif import pat
+  got = pat.search(tee_fn.node, '$v = next(self._iterator)')
+  if got and pat.has(tee_fn.node, f'self._buffer.append({got[0][1]["v"]})') and any(
+      isinstance(r_, ast.Return) and unparse(r_.value) == got[0][1]['v'] for r_ in walk_no_nested(tee_fn.node)):
     ctx.ok(rule, tee_fn, 'tee records each consumed input once', tee_fn.node)
   else:
     ctx.fail(rule, tee_fn, '_TeeIterator.__next__: value = next(it); buffer.append(value)',
@@ -375,8 +379,11 @@ def r4(ctx: Ctx):
              'a failed read-ahead batch is not retried with a smaller batch',
              node=fi.node)
   # successful reads advance by exactly what was cached
-  ok = any(isinstance(x, ast.AugAssign) and is_self_attr(x.target, 'i') and unparse(x.value) == 'batch_size'
-           for x in walk_no_nested(fi.node))
+  # the amount read: the local used as slice width / set from self._batch_size
+  amount = {x.targets[0].id for x in walk_no_nested(fi.node) if isinstance(x, ast.Assign)
+            and isinstance(x.targets[0], ast.Name) and 'self._batch_size' in unparse(x.value)}
+  ok = any(isinstance(x, ast.AugAssign) and is_self_attr(x.target, 'i') and isinstance(x.value, ast.Name)
+           and x.value.id in amount for x in walk_no_nested(fi.node))
   if ok:
     ctx.ok(rule, fi, 'successful read advances by the batch read', fi.node)
   else:
